@@ -107,13 +107,26 @@ func New(ctx context.Context, log *slog.Logger, opts ...Opt) (*Engine, error) {
 	// with the finalization for before the initial height (i.e. from initializing the chain).
 	e.mCfg.InitialValidatorSet = smCfg.Genesis.ValidatorSet
 	if e.mCfg.InitialValidatorSet.Validators == nil {
-		_, _, e.mCfg.InitialValidatorSet, _, err = smCfg.FinalizationStore.LoadFinalizationByHeight(
+		var initAppStateHash string
+		_, _, e.mCfg.InitialValidatorSet, initAppStateHash, err = smCfg.FinalizationStore.LoadFinalizationByHeight(
 			ctx, e.genesis.InitialHeight-1,
 		)
 		if err != nil {
 			return nil, fmt.Errorf(
 				"failed to load initial validator set from finalization store: %w", err,
 			)
+		}
+
+		// The chain was initialized by an earlier run, so maybeInitializeChain returned a zero genesis.
+		// The state machine still needs to know the initial height, validators and app state hash:
+		// it compares its height with the initial height to decide where its validator sets come from,
+		// and when restarted within the first two heights it would otherwise look up
+		// a finalization at a height below zero and quit.
+		smCfg.Genesis = tmconsensus.Genesis{
+			ChainID:             e.genesis.ChainID,
+			InitialHeight:       e.genesis.InitialHeight,
+			CurrentAppStateHash: []byte(initAppStateHash),
+			ValidatorSet:        e.mCfg.InitialValidatorSet,
 		}
 	}
 
